@@ -46,6 +46,19 @@ CLAIMED["C06"] = dict(
     technique="Coq proof (sorted-scan = declarative filter count) + in-Coq differential correspondence",
     design="5/C06")
 
+CLAIMED["C20"] = dict(
+    text=("State-machine model of ProteinGroups (append, extend, merge, remove-empty, re-index, add-unseen; four lookups). "
+          "Invariant 'a valid index is sound and complete' proved for the initial state and every operation, lifted to every "
+          "operation history by fold_left; corollaries: a lookup raises (stale index / unknown key) or returns a group/position "
+          "currently containing the protein; a protein in no group is reported missing by every lookup. Correspondence: "
+          "exhaustive operation sequences (length <= 3 quick, <= 4 thorough, 12-operation alphabet) and random histories, "
+          "compared outcome by outcome with the model evaluated in Coq; a Python monitor of the property classifies "
+          "disagreements."),
+    note=COMMON_NOTE + "List aliasing between groups is not modelled (harness passes fresh lists); set iteration order "
+         "canonicalised by sorting. Axioms: none.",
+    technique="Coq invariant proof over operation histories (fold_left) + exhaustive small-scope differential correspondence",
+    design="5/C20")
+
 ALL = [f"C{i:02d}" for i in range(1, 21)]
 
 
